@@ -71,6 +71,8 @@ def classify_residue(case):
             host = n.host
             if src.host != host and (src.address is None or src.username is None):
                 reasons.append("no transport route")
+            if src.host != host and getattr(case, "quiescent_tools", "rsync-only") == "none":
+                reasons.append("no transport route (neither rsync nor bbcp installed on the destination host)")
             srcfile = case.w.file_on(src, db.ArchiveFile.get(id=r.file_id))
             if srcfile is None and sstate == "Y":
                 reasons.append("source bytes missing although recorded healthy (tracked damage): transfer keeps failing")
@@ -244,13 +246,83 @@ def corpus_hsm(ctx, e):
     return out
 
 
+def stage_transport(ctx, n):
+    """`TransportGroupIO.pull_force` on real Transport groups (1-4 local transport nodes with random free space, minimum /
+    maximum settings and `fits` answers; local and remote sources) vs Lean `transportPick` vs the rule oracle"""
+    import world as worldmod
+    import alpenhorn.daemon.update as upd
+    from alpenhorn.scheduler import FairMultiFIFOQueue
+    rng = ctx.rng
+    lines, metas = [], []
+    with envmod.Env() as e:
+        for it in range(n):
+            w = worldmod.World(e)
+            db = w.db
+            for m in (db.StorageTransferAction, db.ArchiveFileCopyRequest, db.ArchiveFileImportRequest, db.ArchiveFileCopy,
+                      db.ArchiveFile, db.ArchiveAcq, db.StorageNode, db.StorageGroup):
+                m.delete().execute()
+            gs, gt = w.group("gs"), w.group("gt", io_class="Transport")
+            local = rng.random() < 0.8
+            src = w.node("src", gs, host="h1" if local else "h2", stype="F", address="a", username="u")
+            f = w.file(w.acq("acq"), "f.dat", b"x" * 10)
+            w.copy(f, src, has="Y")
+            nodes = []
+            for k in range(rng.randint(1, 4)):
+                av = rng.choice([None, 1, 5, 5, 20, 100])
+                nd = w.node(f"t{k}", gt, host="h1", stype="T", avail_kib=None if av is None else av * 2 ** 20,
+                            min_kib=rng.choice([0, 0, 10 * 2 ** 20]), max_kib=rng.choice([None, None, 1]))
+                if rng.random() < 0.4:
+                    g_ = w.file(w.db.ArchiveAcq.get(name="acq"), f"big{k}.dat", b"y", size=2 ** 31)   # counts toward max_total_gb
+                    db.ArchiveFileCopy.create(file=g_, node=nd, has_file="Y", wants_file="Y", size_b=2 ** 31)
+                nodes.append(nd)
+            req = w.req(f, src, gt)
+            e.set_host("h1")
+            q = FairMultiFIFOQueue()
+            uns = [upd.UpdateableNode(q, db.StorageNode.get(id=nd.id)) for nd in nodes]
+            ug = upd.UpdateableGroup(queue=q, group=db.StorageGroup.get(id=gt.id), nodes=uns, idle=True)
+            fits = {}
+            picked = []
+            for un in uns:
+                fits[un.db.id] = rng.random() < 0.75
+                un.io.fits = (lambda size, _i=un.db.id: fits[_i])
+                un.io.pull = (lambda r, _i=un.db.id: picked.append(_i))
+            ug.io.pull_force(db.ArchiveFileCopyRequest.get(id=req.id))
+            recs = []
+            for un in uns:
+                nd = un.db
+                recs.append((nd.id, None if nd.avail_gb is None else round(nd.avail_gb * 2 ** 20), bool(nd.under_min), bool(nd.check_over_max()), fits[nd.id]))
+            lines.append(f"tpick {int(local)} " + ",".join(f"{i}:{'-' if a is None else a}:{int(u)}:{int(o)}:{int(ft)}" for i, a, u, o, ft in recs))
+            metas.append((local, recs, picked))
+    outs = common.Driver().batch(lines)
+    for (local, recs, picked), out, line in zip(metas, outs, lines):
+        real = str(picked[0]) if picked else "-"
+        elig = [r for r in recs if not r[2] and not r[3] and r[4]]
+        ctx.count(f"transport:{'local' if local else 'remote'}:eligible={min(len(elig), 2)}:{'picked' if picked else 'none'}")
+        ctx.case(("transport", line), nontrivial=len(recs) > 1,
+                 sample={"source_local": local, "nodes(id,availKiB,underMin,overMax,fits)": recs, "picked": picked} if len(elig) > 1 and len(ctx.samples) < 6 else None)
+        if len(picked) > 1:
+            ctx.violation("transport:two-nodes", f"pull_force handed one request to two nodes {picked}", {"kind": "transport", "op": line})
+        # rule oracle: local source and some eligible node <=> handed to a node; that node is eligible and no eligible node is fuller
+        if picked:
+            me = [r for r in recs if r[0] == picked[0]][0]
+            key = lambda r: r[1] if r[1] is not None else r[0] * 10 ** 9 * 2 ** 20
+            if not local or me not in elig or any(key(r) < key(me) for r in elig):
+                ctx.violation("transport:wrong-node", f"pull_force chose node {picked[0]} among {recs} (source local: {local})", {"kind": "transport", "op": line})
+        elif local and elig:
+            ctx.violation("transport:not-dispatched", f"pull_force dispatched nothing although nodes {[r[0] for r in elig]} can take the file "
+                          f"(nodes {recs})", {"kind": "transport", "op": line})
+        if out.strip() != real and len(ctx.corr_broken) < 5:
+            ctx.corr_broken.append({"stream": "TransportGroupIO.pull_force-vs-transportPick", "op": line, "real": real, "model": out})
+
+
 def one_history(ctx, e, hseed, hsm=None):
     """a random history, then fault-free rounds to a fixed point; returns (log, rounds, [(key, problem)])"""
     import random
     hr = random.Random(hseed)
     case, p7, p8, log = c07.run_history(ctx, e, hr, hr.randint(6, 25), hsm=hsm, keep_open=True)
-    # operator activity and faults stop; transports work (scripted rsync / hard links)
-    case.set_tools("rsync-only", "ok")
+    # operator activity and faults stop; the transports installed stay what they are: scripted rsync, rsync + bbcp, or none
+    case.quiescent_tools = hr.choice(["rsync-only", "rsync-only", "both", "none"])
+    case.set_tools(case.quiescent_tools, "ok")
     sig = dharness.state_sig(case)
     rounds = 0
     converged = False
@@ -295,6 +367,7 @@ def run(ctx):
         os.environ["PATH"] = "/usr/local/bin:/usr/bin:/bin"
         for p, steps in corpus_hsm(ctx, e):
             ctx.violation("residue:hsm:" + p.split("(")[0][:40].replace(" ", "_"), p, {"kind": "hsm-scenario", "steps": steps})
+    stage_transport(ctx, 150 if ctx.quick() else 4000)
     for p in corpus_modify_then_pull(ctx):
         ctx.violation("modify-md5-nulls-size", p, {"kind": "corpus", "name": "file modify --md5 then pull"})
     with envmod.Env() as e:
